@@ -1,6 +1,8 @@
 import Dcg.Model.Graphql
 import Dcg.Proofs.Graphql
 import Dcg.Gen.GraphqlTables
+import Dcg.Proofs.GraphqlBridge
+import Dcg.Proofs.GraphqlBridgeOp
 /-
 C17 — the shape of a GraphQL schema is mirrored by the generated models.
 Only property theorems live here; helper lemmas are in Dcg/Proofs/Graphql.lean.
@@ -113,5 +115,162 @@ theorem typename_field_shape :
     typenameField.lookup "default" = some "NAME" ∧
     typenameField.lookup "required" = some "False" ∧
     typenameField.lookup "has_default" = some "True" := by decide
+
+
+/-! ### behind the IR: the annotation that is written for a field
+
+Composition with C13's model of `DataType.type_hint` / `DataModelFieldBase.type_hint`
+(`Model.Types`, `Sem.Typing`) through `Model.GraphqlBridge`:
+* `annotation o isEnum fo t`  the text `field.type_hint` of the member `parse_field` builds for a field
+                              of GraphQL type `t` (`fo` = force_optional_for_required_fields, `isEnum`
+                              = which named types are enums: their leaf also carries a reference);
+* `gqlDenote t`               what `t` means as a Python typing: list level ↦ `list[…]`, nullable level ↦
+                              the alternative `None`, named type ↦ that name;
+* `declared fo t`             `t`, without its outermost `!` under force-optional;
+* `okName n`                  the named type is an identifier-like token other than `None`, `Any`, the
+                              nine container names and `Union` / `Optional` / `Literal`.
+The real `field.type_hint` of the member built by the real GraphQL parser is compared with
+`annotation` on every run for all spellings (vlib/props/c17.py, campaign `gql.annotation`). -/
+
+section rendering
+open Dcg.Model.GraphqlBridge Dcg.Proofs.GraphqlBridge
+open Dcg.Model.Types (Opts)
+open Dcg.Sem.Typing (TExpr print denote)
+
+/-- FULL STRENGTH (kept visible; FALSE of the code, see `type_named_any_loses_nullability`): for every
+container spelling without the union operator, every well-formed type expression over ANY type name
+and both settings of force-optional, the annotation is the printed form of a well-formed typing
+expression that denotes the declared GraphQL type. -/
+def RenderedHintMirrorsType : Prop :=
+  ∀ (o : Opts), o.unionOp = false → ∀ (isEnum : List Char → Bool) (fo : Bool) (t : GType), t.wf = true →
+    ∃ e : TExpr, Dcg.Proofs.Types.wfU e = true ∧ annotation o isEnum fo t = print e ∧
+      denote e = gqlDenote (declared fo t)
+
+/-- PARTIAL (unbounded nesting of `[ ]` and `!`; `List` / `list` / `Sequence` spellings; required and
+force-optional; enum and non-enum leaves): when the named type is `okName`, the annotation text
+written for the field is the printed form of a well-formed typing expression — of exactly one: parsing
+the text back is unambiguous (C13 `hint_unambiguous`) — and that expression denotes exactly the
+declared GraphQL type: a list level is a list, a nullable level has the alternative `None`, a `!`
+level has not, the innermost name is the named type.
+Composition: `parseField` (C17) ; `toTypes` ; C13 `typeHint_eq_print_typing` (string surgery =
+structural rendering) ; `hintE` on a chain = `chainE` ; C13 `optional_keeps_alternatives_text` for the
+member-level `Optional[…]` ; `denote (chainE …) = den …` by induction over the type expression. -/
+theorem rendered_hint_mirrors_type (o : Opts) (ho : o.unionOp = false) (isEnum : List Char → Bool)
+    (fo : Bool) (t : GType) (hwf : t.wf = true) (hn : okName t.baseName = true) :
+    ∃ e : TExpr, Dcg.Proofs.Types.wfU e = true ∧ annotation o isEnum fo t = print e ∧
+      (∀ e', Dcg.Proofs.Types.wfU e' = true → print e' = annotation o isEnum fo t → e' = e) ∧
+      denote e = gqlDenote (declared fo t) := by
+  have hn' : okName (unroll (declared fo t) true).typeName = true := by
+    rw [unroll_typeName, baseName_declared]; exact hn
+  have hw := wfU_chain o ho isEnum _ hn'
+  have ha := annotation_eq o ho isEnum fo t hwf hn
+  refine ⟨chainE o (unroll (declared fo t) true), hw, ha, ?_, ?_⟩
+  · intro e' he' hp
+    exact Dcg.Props.C13.hint_unambiguous e' _ he' hw (by rw [hp, ha])
+  · rw [(denote_chain o _ hn').2.2, denChain_unroll]
+    rfl
+
+/-- non-vacuity: `[[Color!]]!` over an enum, typing spelling — the hypotheses hold, the text is the
+expected one, and so is its meaning; under force-optional the outermost `!` is gone -/
+example :
+    let t : GType := .nonNull (.list (.list (.nonNull (.named "Color".toList))))
+    t.wf = true ∧ okName t.baseName = true ∧
+    annotation {} (fun _ => true) false t = "List[Optional[List[Color]]]".toList ∧
+    (gqlDenote t).show = "list({list(Color);None})".toList ∧
+    annotation { stdColl := true } (fun _ => true) true t = "Optional[list[Optional[list[Color]]]]".toList ∧
+    (gqlDenote (declared true t)).show = "{list({list(Color);None});None}".toList := by
+  decide +kernel
+
+/-- The container spelling does not change the meaning: any two of `List` / `list` / `Sequence` give
+annotations whose (unique) parses denote the same type — here as a corollary of
+`rendered_hint_mirrors_type`; C13's `spelling_invariant_collections` says the same of the node hint
+(`node_hint_spellings_agree`). -/
+theorem rendered_hint_spelling_invariant (o o' : Opts) (ho : o.unionOp = false) (ho' : o'.unionOp = false)
+    (isEnum : List Char → Bool) (fo : Bool) (t : GType) (hwf : t.wf = true) (hn : okName t.baseName = true) :
+    ∃ e e' : TExpr, annotation o isEnum fo t = print e ∧ annotation o' isEnum fo t = print e' ∧
+      denote e = denote e' := by
+  obtain ⟨e, _, h1, _, h2⟩ := rendered_hint_mirrors_type o ho isEnum fo t hwf hn
+  obtain ⟨e', _, h1', _, h2'⟩ := rendered_hint_mirrors_type o' ho' isEnum fo t hwf hn
+  exact ⟨e, e', h1, h1', by rw [h2, h2']⟩
+
+/-- the same at the level of the `DataType` chain, directly from C13: the chain of a field is a tree
+with plain names that are not container names, so `spelling_invariant_collections` applies to it -/
+theorem node_hint_spellings_agree (o o' : Opts) (ho : o.unionOp = false) (ho' : o'.unionOp = false)
+    (isEnum : List Char → Bool) (fo : Bool) (t : GType) (hn : okName t.baseName = true) :
+    denote (Dcg.Model.HintExpr.hintE o' (toTypes isEnum (parseField fo t).dt)).1 =
+      denote (Dcg.Model.HintExpr.hintE o (toTypes isEnum (parseField fo t).dt)).1 := by
+  have hn' : okName (parseField fo t).dt.typeName = true := by
+    simp only [parseField]; rw [unroll_typeName]; exact hn
+  exact (Dcg.Props.C13.spelling_invariant_collections o o' ho ho' _ (wfTree_toTypes isEnum _ hn')
+    (freeTree_toTypes isEnum _ hn')).2.2
+
+/-- REFUTATION of the full statement (known finding C17-type-named-Any): a GraphQL type called `Any`
+(`scalar Any` is legal SDL). `type_hint` never wraps the text `Any` in `Optional[…]`, so the nullable
+ELEMENT of `[Any]` is written `List[Any]`; with the alias `Any: TypeAlias = str` the generator emits,
+`[null]` conforms to the GraphQL type and is rejected by the class. -/
+theorem type_named_any_loses_nullability :
+    annotation {} (fun _ => false) false (.list (.named "Any".toList)) = "Optional[List[Any]]".toList ∧
+    (denote (.app Dcg.Sem.Typing.sOptional [.app "List".toList [.atom "Any".toList]])).show
+      = "{list(Any);None}".toList ∧
+    (gqlDenote (.list (.named "Any".toList))).show = "{list({Any;None});None}".toList := by
+  decide +kernel
+
+theorem rendered_hint_full_false : ¬ RenderedHintMirrorsType := by
+  intro h
+  obtain ⟨e, hw, hp, hd⟩ := h {} rfl (fun _ => false) false (.list (.named "Any".toList)) (by decide)
+  rw [type_named_any_loses_nullability.1] at hp
+  have he : e = .app Dcg.Sem.Typing.sOptional [.app "List".toList [.atom "Any".toList]] :=
+    Dcg.Props.C13.hint_unambiguous e _ hw (by decide) (by rw [← hp]; decide)
+  subst he
+  have hd' : denote (.app Dcg.Sem.Typing.sOptional [.app "List".toList [.atom "Any".toList]])
+      = gqlDenote (.list (.named "Any".toList)) := hd
+  have := congrArg Dcg.Sem.Typing.Ty.show hd'
+  rw [type_named_any_loses_nullability.2.1, type_named_any_loses_nullability.2.2] at this
+  exact absurd this (by decide)
+
+/-- THE `|` SPELLING (`use_union_operator`), proved as well, same hypothesis: the annotation is the
+printed form of the PEP 604 expression `X | None` per nullable level, and that expression denotes the
+declared GraphQL type. What makes it true here although C13 refutes spelling invariance in general
+(`spelling_changes_meaning`): `_remove_none_from_union` splits the text at EVERY `|`, also inside
+brackets, and drops the parts equal to `None`; on the text of a GraphQL chain every part either carries
+a bracket (`List[Int`, `None]`) or is the type name, so nothing is dropped and `get_optional_type`
+only appends ` | None` (Proofs/GraphqlBridgeOp.lean, a string-level proof about `re.split`).
+The expression is exhibited, not claimed unique: the printer is not injective on `|` expressions. -/
+theorem rendered_hint_mirrors_type_operator (o : Opts) (ho : o.unionOp = true) (isEnum : List Char → Bool)
+    (fo : Bool) (t : GType) (hwf : t.wf = true) (hn : okName t.baseName = true) :
+    ∃ e : TExpr, annotation o isEnum fo t = print e ∧ denote e = gqlDenote (declared fo t) := by
+  have hn' : okName (unroll (declared fo t) true).typeName = true := by
+    rw [unroll_typeName, baseName_declared]; exact hn
+  refine ⟨Dcg.Proofs.GraphqlBridgeOp.chainB o (unroll (declared fo t) true), ?_, ?_⟩
+  · rw [Dcg.Proofs.GraphqlBridgeOp.print_chainB]
+    exact Dcg.Proofs.GraphqlBridgeOp.annotationB_eq o ho isEnum fo t hwf hn
+  · rw [(Dcg.Proofs.GraphqlBridgeOp.denote_chainB o _ hn').2.2, denChain_unroll]
+    rfl
+
+/-- non-vacuity, `|` spelling: `[[Color!]]!` and `[Int]` -/
+example :
+    annotation { unionOp := true } (fun _ => true) false
+      (.nonNull (.list (.list (.nonNull (.named "Color".toList))))) = "List[List[Color] | None]".toList ∧
+    annotation { unionOp := true, stdColl := true } (fun _ => false) false (.list (.named "Int".toList))
+      = "list[Int | None] | None".toList ∧
+    (gqlDenote (.list (.named "Int".toList))).show = "{list({Int;None});None}".toList := by
+  decide +kernel
+
+/-- Every spelling the GraphQL parser can be asked for — `List` / `list`, `Optional[…]` / `| None` —
+gives an annotation with the same meaning: that of the declared type. -/
+theorem rendered_hint_all_spellings (unionOp stdColl : Bool) (isEnum : List Char → Bool) (fo : Bool)
+    (t : GType) (hwf : t.wf = true) (hn : okName t.baseName = true) :
+    ∃ e : TExpr, annotation (gqlOpts unionOp stdColl) isEnum fo t = print e ∧
+      denote e = gqlDenote (declared fo t) := by
+  cases unionOp with
+  | true => exact rendered_hint_mirrors_type_operator _ rfl isEnum fo t hwf hn
+  | false =>
+    obtain ⟨e, _, h1, _, h2⟩ := rendered_hint_mirrors_type (gqlOpts false stdColl) rfl isEnum fo t hwf hn
+    exact ⟨e, h1, h2⟩
+
+/-- the witness lies outside `okName`, as it must -/
+example : okName "Any".toList = false ∧ okName "Date".toList = true := by decide
+
+end rendering
 
 end Dcg.Props.C17
